@@ -60,7 +60,7 @@ func main() {
 		check(run, c)
 		return
 	}
-	n := run.Pick(1500, 400000)
+	n := run.Pick(1500, 2000000)
 	const per = 20
 	run.Parallel(n/per, func(batch int) {
 		r := run.Rand(uint64(batch))
